@@ -204,6 +204,31 @@ func truncSig(sig hotstuff.QuorumSignature, drop int) hotstuff.QuorumSignature {
 	return nil
 }
 
+// claimSigner keeps the signature bytes of a single signature but names another replica as its signer.
+func claimSigner(scheme string, sig hotstuff.QuorumSignature, id hotstuff.ID) hotstuff.QuorumSignature {
+	switch s := sig.(type) {
+	case crypto.Multi[*crypto.EDDSASignature]:
+		if len(s) == 0 {
+			return nil
+		}
+		return crypto.Multi[*crypto.EDDSASignature]{crypto.RestoreEDDSASignature(s[0].ToBytes(), id)}
+	case crypto.Multi[*crypto.ECDSASignature]:
+		if len(s) == 0 {
+			return nil
+		}
+		return crypto.Multi[*crypto.ECDSASignature]{crypto.RestoreECDSASignature(s[0].ToBytes(), id)}
+	case *crypto.BLS12AggregateSignature:
+		var bf crypto.Bitfield
+		bf.Add(id)
+		r, err := crypto.RestoreBLS12AggregateSignature(s.ToBytes(), bf)
+		if err != nil {
+			return nil
+		}
+		return r
+	}
+	return nil
+}
+
 func emptySig(scheme string) hotstuff.QuorumSignature {
 	switch scheme {
 	case crypto.NameEDDSA:
@@ -278,6 +303,32 @@ func (a *adversary) craftBlock(nd *Node, view hotstuff.View) *hotstuff.Block {
 	w.reg.add(b, nd)
 	a.blocks = append(a.blocks, b)
 	return b
+}
+
+// forgeTC returns a timeout certificate that no quorum of timeouts backs.
+func (a *adversary) forgeTC(nd *Node) hotstuff.TimeoutCert {
+	v := nd.states.View() + hotstuff.View(a.intn(30))
+	switch a.intn(4) {
+	case 0: // its own signature alone, for some later view
+		return hotstuff.NewTimeoutCert(a.ownSig(nd, v.ToBytes()), v)
+	case 1: // its own signature repeated
+		if sig := repeatSig(a.ownSig(nd, v.ToBytes()), a.w.orc.q); sig != nil {
+			return hotstuff.NewTimeoutCert(sig, v)
+		}
+	case 2: // a real certificate relabelled to a later view
+		if len(a.tcs) > 0 {
+			tc := a.tcs[a.intn(len(a.tcs))]
+			return hotstuff.NewTimeoutCert(tc.Signature(), tc.View()+hotstuff.View(1+a.intn(20)))
+		}
+	case 3: // a real certificate cut below the quorum
+		if len(a.tcs) > 0 {
+			tc := a.tcs[a.intn(len(a.tcs))]
+			if sig := truncSig(tc.Signature(), 1+tc.Signature().Participants().Len()-a.w.orc.q); sig != nil {
+				return hotstuff.NewTimeoutCert(sig, tc.View())
+			}
+		}
+	}
+	return hotstuff.NewTimeoutCert(a.ownSig(nd, v.ToBytes()), v)
 }
 
 var qcForgeries = []string{"dupsigner", "relabel", "subquorum", "wrongblock", "genesisview", "swapids", "nosig"}
@@ -426,6 +477,18 @@ func (a *adversary) onTimeout(nd *Node, m *hotstuff.TimeoutMsg) bool {
 			return true
 		}
 	}
+	if has(acts, "forgetc") && a.chance(0.6) {
+		fm := *m
+		fm.SyncInfo.SetTC(a.forgeTC(nd))
+		if m.MsgSignature != nil {
+			fm.MsgSignature = a.ownSig(nd, fm.ToBytes())
+		}
+		for _, id := range a.others(nd) {
+			a.sendTo(nd, id, "timeout", fm)
+		}
+		a.fired("forgetc-timeout")
+		return true
+	}
 	if has(acts, "staleTC") && len(a.tcs) > 0 && a.chance(0.5) {
 		// replay an old timeout certificate, or one relabelled to a later view
 		tc := a.tcs[a.intn(len(a.tcs))]
@@ -484,6 +547,21 @@ func (a *adversary) onVote(nd *Node, to hotstuff.ID, c *hotstuff.PartialCert) bo
 		a.sendTo(nd, to, "vote", hotstuff.VoteMsg{ID: nd.id, PartialCert: hotstuff.NewPartialCert(sig, c.BlockHash())})
 		a.fired("multivote")
 		return true
+	case has(acts, "forgevote") && a.chance(0.7):
+		// votes for the same block that name other replicas as signers (the signature bytes are its own):
+		// invalid, and racing with the genuine votes of the replicas they name
+		for k := 0; k < 1+a.intn(2); k++ {
+			victim := hotstuff.ID(1 + a.intn(w.plan.N))
+			if victim == nd.id {
+				continue
+			}
+			if sig := claimSigner(w.plan.Crypto, c.Signature(), victim); sig != nil {
+				a.sendTo(nd, to, "vote", hotstuff.VoteMsg{ID: nd.id, PartialCert: hotstuff.NewPartialCert(sig, c.BlockHash())})
+			}
+		}
+		a.sendTo(nd, to, "vote", hotstuff.VoteMsg{ID: nd.id, PartialCert: *c})
+		a.fired("forgevote")
+		return true
 	case has(acts, "zerovote") && a.chance(0.6):
 		a.sendTo(nd, to, "vote", hotstuff.VoteMsg{ID: nd.id, PartialCert: hotstuff.NewPartialCert(emptySig(w.plan.Crypto), c.BlockHash())})
 		a.fired("zerovote")
@@ -515,6 +593,16 @@ func (a *adversary) onNewView(nd *Node, to hotstuff.ID, si *hotstuff.SyncInfo) b
 	acts := a.acts(nd)
 	if acts == nil || !a.chance(nd.byz.Rate) {
 		return false
+	}
+	if has(acts, "forgetc") && a.chance(0.7) {
+		// a timeout certificate nobody backs, riding next to whatever valid certificate the replica was about to send
+		fsi := *si
+		fsi.SetTC(a.forgeTC(nd))
+		for _, id := range a.others(nd) {
+			a.sendTo(nd, id, "newview", hotstuff.NewViewMsg{ID: nd.id, SyncInfo: fsi, FromNetwork: true})
+		}
+		a.fired("forgetc-newview")
+		return true
 	}
 	if f := a.pickForgery(acts); f != "" && a.chance(0.7) {
 		if qc, ok := a.forgeQC(nd, f, nd.states.View()); ok {
